@@ -190,7 +190,7 @@ func outcomeStr(v cty.Value, err error, p bool) string {
 }
 
 func genC04(c *Ctx, r *rng.R, i int) {
-	if i < 2 {
+	if i < 4 {
 		c04Corpus(c, i)
 		return
 	}
@@ -778,6 +778,23 @@ func c04Corpus(c *Ctx, i int) {
 		c.paired("op OHasElem", []cty.Value{s, e}, func(as []cty.Value) (cty.Value, error) { return as[0].HasElement(as[1]), nil }, true, desc)
 		ret, p, _ := runOp("OHasElem", []cty.Value{s, e})
 		c.Add("corpus", k04k(fmt.Sprintf("K_op OHasElem %s %s", cq.ValList([]cty.Value{s, e}), cq.ResVal(ret, p))), desc, true)
+	case 2, 3:
+		// a function that handles marks itself, given a marked sequence whose length is not settled (a set with an unknown
+		// member), directly and nested: the marks are on the result
+		set := cty.SetVal([]cty.Value{cty.UnknownVal(cty.String), cty.StringVal("a")}).Mark(3)
+		arg := set
+		if i == 3 {
+			arg = cty.TupleVal([]cty.Value{cty.StringVal("x"), set})
+		}
+		desc := map[string]interface{}{"func": "flatten", "args": showAll([]cty.Value{arg})}
+		c.paired("func flatten", []cty.Value{arg}, func(as []cty.Value) (cty.Value, error) { return stdlib.FlattenFunc.Call(as) }, false, desc)
+		var ret cty.Value
+		var err error
+		p, _ := recovered(func() { ret, err = stdlib.FlattenFunc.Call([]cty.Value{arg}) })
+		c.Count("oracle_evals")
+		if p || err != nil || !subset(deepMarks(arg), deepMarks(ret)) {
+			c.Fail("C04/func-mark-lost", fmt.Sprintf("flatten of a marked set of unsettled length: the mark is missing on the result %s (panic=%v err=%v)", cq.Show(ret), p, err), desc)
+		}
 	default:
 		v := cty.ObjectVal(map[string]cty.Value{"a": cty.NullVal(cty.String).Mark(2)})
 		target := cty.Object(map[string]cty.Type{"a": cty.Number})
